@@ -132,7 +132,11 @@ def nested(b, sym):
         b.mkfile(f, c)
     r = b.run("create", root="R/A", h=["md5"])
     b.require(r.exit == 0, "setup-create", str(r))
-    r = b.run("create", root="R", h=["md5"])
+    # how the root is spelled on the command line, the same way in every run (from inside the folder as `.`, with `./` in front)
+    from .c13 import root_argument
+    spelling = sym.choose("root_spelling", ["plain", "dot", "dot-slash"])
+    rootarg = root_argument(spelling)
+    r = b.run("create", h=["md5"], **rootarg)
     b.require(r.exit == 0, "setup-create", str(r))
     moves = {}
     for i, f in enumerate(["R/clip.mov", "R/A/clip.mov"]):
@@ -146,8 +150,8 @@ def nested(b, sym):
     if sym.flag("unrelated_new_file_in_a_new_directory"):
         b.mkfile("R/fresh/brand new.bin", 9)
     fmts = [sym.choose("dr_format", ["md5", "sha1"])]
-    r = b.run("create", root="R", h=fmts, dr=True)
-    tag = "create -dr -h %s after %s: exit %s exc %s" % (fmts[0], moves, r.exit, r.exc)
+    r = b.run("create", h=fmts, dr=True, **rootarg)
+    tag = "create -dr -h %s (root spelled %s) after %s: exit %s exc %s" % (fmts[0], spelling, moves, r.exit, r.exc)
     b.require(r.exit == 0 and r.exc is None, "create-dr-exit-0", tag)
     b.require(not missing_lines(r), "renamed-reported-missing", "%s: %s" % (tag, missing_lines(r)))
     for old, new in moves.items():
@@ -163,7 +167,7 @@ def nested(b, sym):
             rec = b.manifests(hr)[-1].record(posixpath.relpath(f, hr))
             b.require(rec is not None and rec.previous_path is None, "unmoved-file-no-previous-path", "%s: %s" % (tag, f))
     for cmd in ("verify", "create"):
-        r2 = b.run(cmd, root="R") if cmd != "create" else b.run("create", root="R", h=fmts)
+        r2 = b.run(cmd, **rootarg) if cmd != "create" else b.run("create", h=fmts, **rootarg)
         b.require(r2.exit == 0 and r2.exc is None, "accepted-afterwards", "%s afterwards: exit %s exc %s | %s" % (cmd, r2.exit, r2.exc, (r2.err + r2.out)[:3]))
 
 
